@@ -249,11 +249,11 @@ func c19M1(r *core.R) {
 				}
 			case *ast.ForStmt:
 				facts := c19LoopStayFacts(s)
+				varied := c19AssignedIn(m.info, s.Body, s.Post)
 				if len(facts) == 0 {
-					r.Unknown(l.key(), s.Pos(), "`for` without a condition and without a leading `if … { break }` in %s: termination rests on exits this rule does not decide (accepted: a condition, or leading break/return guards, whose every atomic part depends on a variable the body assigns)", fi.Name())
+					c19M1Exits(r, m, l, s, varied)
 					continue
 				}
-				varied := c19AssignedIn(m.info, s.Body, s.Post)
 				variedList := c19SortedObjs(varied)
 				all := "for " + src(r.P.Fset, s.Cond)
 				for i, f := range facts {
@@ -681,22 +681,25 @@ func (m *c19Model) seqVarsIn(e ast.Expr) []types.Object {
 func (m *c19Model) bounds(fi *FuncInfo, facts []c19StayFact) (lo, hi types.Object, cond ast.Expr) {
 	rs := &c19Resolver{m: m, keep: map[types.Object]bool{}}
 	fr := &c19Frame{fi: fi}
-	for _, f := range facts {
-		q := rs.ineq(fr, f.expr, f.val)
-		if q == nil || len(q.terms) != 2 {
-			continue
-		}
-		var pos, neg types.Object
-		for _, o := range m.seqVarsIn(f.expr) {
-			switch q.terms[c19SeqKey(o)] {
-			case 1:
-				pos = o
-			case -1:
-				neg = o
+	for _, f0 := range facts {
+		for _, f := range m.expandFact(fr, f0.expr, f0.val, 0) {
+			q := rs.ineq(f.fr, f.expr, f.val)
+			if q == nil || len(q.terms) != 2 {
+				continue
 			}
-		}
-		if pos != nil && neg != nil && pos != neg {
-			return pos, neg, f.expr
+			var pos, neg types.Object
+			for _, o := range m.seqVarsIn(f.expr) {
+				ro := rs.rootVar(f.fr, o, 0)
+				switch q.terms[c19SeqKey(ro)] {
+				case 1:
+					pos = ro
+				case -1:
+					neg = ro
+				}
+			}
+			if pos != nil && neg != nil && pos != neg {
+				return pos, neg, f0.expr
+			}
 		}
 	}
 	return nil, nil, nil
@@ -1321,74 +1324,76 @@ func c19M2(r *core.R) {
 						if f.expr.Pos() > s.fetch.Pos() {
 							continue
 						}
-						q := rs.ineq(s.fr, f.expr, f.val)
-						if q == nil {
-							// `v != bound` ends the scan on the bound only if v starts on the scan's side of it and moves by one
-							if l, op, rr, ok := cmpNorm(f.expr); ok && ((op == token.NEQ && f.val) || (op == token.EQL && !f.val)) {
-								d := rs.lin(s.fr, l, 0)
-								d.add(rs.lin(s.fr, rr, 0), -1)
-								if len(d.terms) == 2 && d.terms[c19VarKey(v)] != 0 && d.terms[c19SeqKey(want)] != 0 {
-									undecided = fmt.Sprintf("`%s` relates %s to %s.SeqNum by inequality only: it bounds the scan if and only if the start value lies on the scan's side of the bound, which depends on values (accepted: an order comparison equivalent to `%s`)", src(fs, f.expr), v.Name(), want.Name(), wantSrc)
-								}
-							}
-							continue
-						}
-						kv, kb := c19VarKey(v), c19SeqKey(want)
-						cv, cb := q.terms[kv], q.terms[kb]
-						shown := src(fs, f.expr)
-						if !f.val {
-							shown = "!(" + shown + ")"
-						}
-						if len(q.terms) != 2 || cv == 0 || cb == 0 {
-							if cv != 0 || cb != 0 {
-								var others []string
-								for k, n := range q.names {
-									if k != kv && k != kb {
-										others = append(others, n)
+						for _, sf := range m.expandFact(s.fr, f.expr, f.val, 0) {
+							q := rs.ineq(sf.fr, sf.expr, sf.val)
+							if q == nil {
+								// `v != bound` ends the scan on the bound only if v starts on the scan's side of it and moves by one
+								if l, op, rr, ok := cmpNorm(sf.expr); ok && ((op == token.NEQ && sf.val) || (op == token.EQL && !sf.val)) {
+									d := rs.lin(sf.fr, l, 0)
+									d.add(rs.lin(sf.fr, rr, 0), -1)
+									if len(d.terms) == 2 && d.terms[c19VarKey(v)] != 0 && d.terms[c19SeqKey(want)] != 0 {
+										undecided = fmt.Sprintf("`%s` relates %s to %s.SeqNum by inequality only: it bounds the scan if and only if the start value lies on the scan's side of the bound, which depends on values (accepted: an order comparison equivalent to `%s`)", src(fs, sf.expr), v.Name(), want.Name(), wantSrc)
 									}
 								}
-								sort.Strings(others)
-								if cv != 0 {
-									near = append(near, fmt.Sprintf("`%s` relates %s to {%s}, not to %s.SeqNum", shown, v.Name(), strings.Join(others, ", "), want.Name()))
-								} else {
-									near = append(near, fmt.Sprintf("`%s` compares {%s} with %s.SeqNum; none of them is the stepped variable %s, so the test is the same on every iteration and the scan walks past the bound", shown, strings.Join(others, ", "), want.Name(), v.Name()))
-								}
+								continue
 							}
-							continue
-						}
-						// the test is about the value of v where it stands; the value probed is v plus the steps still to
-						// come before the probe: restate the bound for the value probed
-						if betaOK && beta != 0 {
-							rem := int64(0)
-							for _, cy := range cycles {
-								if cy.probed {
-									for _, st := range cy.before {
-										if st.stmt.Pos() > f.expr.Pos() {
-											rem += int64(st.dir)
+							kv, kb := c19VarKey(v), c19SeqKey(want)
+							cv, cb := q.terms[kv], q.terms[kb]
+							shown := src(fs, sf.expr)
+							if !sf.val {
+								shown = "!(" + shown + ")"
+							}
+							if len(q.terms) != 2 || cv == 0 || cb == 0 {
+								if cv != 0 || cb != 0 {
+									var others []string
+									for k, n := range q.names {
+										if k != kv && k != kb {
+											others = append(others, n)
 										}
 									}
-									break
+									sort.Strings(others)
+									if cv != 0 {
+										near = append(near, fmt.Sprintf("`%s` relates %s to {%s}, not to %s.SeqNum", shown, v.Name(), strings.Join(others, ", "), want.Name()))
+									} else {
+										near = append(near, fmt.Sprintf("`%s` compares {%s} with %s.SeqNum; none of them is the stepped variable %s, so the test is the same on every iteration and the scan walks past the bound", shown, strings.Join(others, ", "), want.Name(), v.Name()))
+									}
 								}
+								continue
 							}
-							q.c += cv * rem
-						}
-						// down: lo.seq - p <= -1 ; up: p - hi.seq <= -1
-						wantV, wantB := int64(-1), int64(1)
-						if dir > 0 {
-							wantV, wantB = 1, -1
-						}
-						switch {
-						case cv != wantV || cb != wantB:
-							near = append(near, fmt.Sprintf("`%s` has the bound on the wrong side (it keeps %s on the far side of %s.SeqNum)", shown, v.Name(), want.Name()))
-						case q.sub:
-							near = append(near, fmt.Sprintf("`%s` subtracts a constant from an unsigned sequence number; wrap-around at 0 is not decided", shown))
-						case q.c == -1:
-							r.OK(c, f.expr.Pos(), "`%s` controls the probe on every iteration and is `%s` in normal form for the value probed: every probe lies strictly between the bounds, the last one next to %s, and the scan ends after at most |mid - %s.SeqNum| requests", shown, wantSrc, want.Name(), want.Name())
-							return
-						case q.c < -1:
-							near = append(near, fmt.Sprintf("`%s` stops the scan %d short of the bound: the state file(s) next to %s are never probed, so when they are the only ones available on this side the search steps past them and answers a later state", shown, -1-q.c, want.Name()))
-						default:
-							near = append(near, fmt.Sprintf("`%s` is not strict: the scan probes %s.SeqNum itself (or beyond), finds the bound state again and the search makes no progress", shown, want.Name()))
+							// the test is about the value of v where it stands; the value probed is v plus the steps still to
+							// come before the probe: restate the bound for the value probed
+							if betaOK && beta != 0 {
+								rem := int64(0)
+								for _, cy := range cycles {
+									if cy.probed {
+										for _, st := range cy.before {
+											if st.stmt.Pos() > f.expr.Pos() {
+												rem += int64(st.dir)
+											}
+										}
+										break
+									}
+								}
+								q.c += cv * rem
+							}
+							// down: lo.seq - p <= -1 ; up: p - hi.seq <= -1
+							wantV, wantB := int64(-1), int64(1)
+							if dir > 0 {
+								wantV, wantB = 1, -1
+							}
+							switch {
+							case cv != wantV || cb != wantB:
+								near = append(near, fmt.Sprintf("`%s` has the bound on the wrong side (it keeps %s on the far side of %s.SeqNum)", shown, v.Name(), want.Name()))
+							case q.sub:
+								near = append(near, fmt.Sprintf("`%s` subtracts a constant from an unsigned sequence number; wrap-around at 0 is not decided", shown))
+							case q.c == -1:
+								r.OK(c, f.expr.Pos(), "`%s` controls the probe on every iteration and is `%s` in normal form for the value probed: every probe lies strictly between the bounds, the last one next to %s, and the scan ends after at most |mid - %s.SeqNum| requests", shown, wantSrc, want.Name(), want.Name())
+								return
+							case q.c < -1:
+								near = append(near, fmt.Sprintf("`%s` stops the scan %d short of the bound: the state file(s) next to %s are never probed, so when they are the only ones available on this side the search steps past them and answers a later state", shown, -1-q.c, want.Name()))
+							default:
+								near = append(near, fmt.Sprintf("`%s` is not strict: the scan probes %s.SeqNum itself (or beyond), finds the bound state again and the search makes no progress", shown, want.Name()))
+							}
 						}
 					}
 					if undecided != "" && len(near) == 0 {
